@@ -92,3 +92,10 @@ package keeper
 //@   requires req != nil
 //@   flag havoc=.SetOperatorConsKeyForChainID,.IsActive,NewWrappedConsKeyFromJSON
 //@   before[C10.ms.setkey.signer] Keeper).SetOperatorConsKeyForChainID requires arg_opAccAddr == bech32addr(old(req.Address))
+
+// ---------------------------------------------------------------------------------------------
+// C05: value = amount * price / 10^(asset decimals + price decimals), as an 18-decimal number, truncated
+//@ func CalculateUSDValue
+//@   requires !isnil(assetAmount) && !isnil(price)
+//@   ensures[C05.cuv.spec]   !isnil(result) && val(result) == tdiv(val(assetAmount) * val(price) * P18, pow10(assetDecimal + priceDecimal))
+//@   ensures[C05.cuv.nonneg] val(assetAmount) >= 0 && val(price) >= 0 && assetDecimal + priceDecimal <= 40 ==> val(result) >= 0
